@@ -18,7 +18,7 @@ META = {
             "capacity, 1-3 shards, up to 3 reshards, <=3 recoverable and <=1 non-recoverable injected errors. The WAL watcher itself (segments, "
             "checkpoints, SeriesReset), histograms/exemplars/metadata, the age limit and the flush-deadline hard shutdown are not modelled; "
             "Append/StoreSeries are called directly (they are the watcher's callbacks). The BatchSendDeadline timer is part of the model "
-            "(MC_big, MC_live) but not of the replayed schedules (it cannot be fired deterministically). Trusted: hook placement, TLC, harness.",
+            "(MC_live, and MC_big in the thorough tier) but not of the replayed schedules (it cannot be fired deterministically). Trusted: hook placement, TLC, harness.",
     "technique": "TLA+ model (QueueManager.tla) checked by TLC over all interleavings incl. liveness; TLC-generated interleavings replayed on the "
                  "real QueueManager with verifhook scheduler gates and a scripted WriteClient; endpoint log compared with the WAL per series",
     "design_ref": "DESIGN.md §5 C40",
@@ -33,14 +33,17 @@ def run(ctx):
     with ThreadPoolExecutor(max_workers=4) as ex:
         f_mc = ex.submit(ctx.tlc, "queuemanager", "QueueManager", "MC_quick.cfg", workers=4, timeout=1500)
         f_live = ex.submit(ctx.tlc, "queuemanager", "QueueManager", "MC_live.cfg", workers=2, timeout=1500)
-        f_big = ex.submit(ctx.tlc, "queuemanager", "QueueManager", "MC_big.cfg", workers=4, timeout=3000)
+        # (M) bigger WAL, timer flush enabled, two reshards: check only (thorough tier)
+        f_big = None if q else ex.submit(ctx.tlc, "queuemanager", "QueueManager", "MC_big.cfg", workers=4, timeout=3000)
         f_sim = ex.submit(ctx.tlc, "queuemanager", "QueueManager", "SIM.cfg", simulate=(25 if q else 500), depth=140, workers=4,
                           timeout=(300 if q else 1500))
-        mc, live, big, sim = f_mc.result(), f_live.result(), f_big.result(), f_sim.result()
-    for r in (mc, live, big, sim):
+        mc, live, sim = f_mc.result(), f_live.result(), f_sim.result()
+        big = f_big.result() if f_big else None
+    for r in (mc, live, sim) + ((big,) if big else ()):
         ctx.account(r)
-    ctx.log("MC_quick: %d generated / %d distinct, %d behaviours (%.0fs); MC_big (timer) %d distinct (%.0fs); MC_live ok (%.0fs); SIM %d walks"
-            % (mc.generated, mc.distinct, len(mc.emitted), mc.wall, big.distinct, big.wall, live.wall, len(sim.emitted)))
+    ctx.log("MC_quick (eager receive): %d generated / %d distinct, %d behaviours (%.0fs); MC_live (all interleavings, timer, safety+liveness) %d distinct (%.0fs); SIM %d walks%s"
+            % (mc.generated, mc.distinct, len(mc.emitted), mc.wall, live.distinct, live.wall, len(sim.emitted),
+               "; MC_big (timer) %d distinct (%.0fs)" % (big.distinct, big.wall) if big else ""))
     behs = list(mc.emitted)
     if q:
         behs = [b for i, b in enumerate(behs) if (i + ctx.seed) % 2 == 0]
